@@ -180,3 +180,32 @@ def malformed(rng, sysi):
     if r > 0.95:
         s = s + b"1" * rng.choice([20, 400])
     return bytes(s)
+
+
+def variants(rng, sysi, s):
+    """spellings related to s: trailing zero components (0, 00), leading zeros, case changes,
+    separator changes, an added/removed build tag or prerelease number"""
+    out = []
+    head, sep, tail = s.partition(b"+")
+    core, dash, pre = head.partition(b"-")
+    k = rng.randrange(6)
+    if k == 0:
+        out.append(core + rng.choice([b".0", b".00", b".0.0"]) + dash + pre + sep + tail)
+    elif k == 1:
+        out.append(s + rng.choice([b".0", b".00", b"-0", b".1"]))
+    elif k == 2:
+        out.append(s.swapcase())
+        out.append(s.upper())
+    elif k == 3 and dash:
+        out.append(core + rng.choice([b".", b""]) + pre + sep + tail)
+        out.append(core + dash + pre + rng.choice([b".0", b".00", b"0", b"1"]) + sep + tail)
+    elif k == 4:
+        parts = core.split(b".")
+        i = rng.randrange(len(parts))
+        if parts[i].isdigit():
+            parts[i] = b"0" + parts[i]
+        out.append(b".".join(parts) + dash + pre + sep + tail)
+    elif sysi in (0, 1, 2, 4, 5, 8):
+        out.append(head + b"+" + rng.choice([b"x", b"1", b"build.2"]))
+        out.append(head)
+    return [v for v in out if v != s]
